@@ -99,6 +99,45 @@ func c14rateRow(s string) (row c14rate) {
 	return row
 }
 
+type c14ramp struct {
+	Kind       string   `json:"kind"`
+	StartChars []string `json:"start_chars"`
+	EndChars   []string `json:"end_chars"`
+	Str        string   `json:"str"`
+	Fits       bool     `json:"fits"`
+	Accepted   bool     `json:"accepted"`
+	Panicked   bool     `json:"panicked"`
+	Ms         int64    `json:"ms"`
+	Ns         int64    `json:"ns"`
+	First      int      `json:"first"`
+	Last       int      `json:"last"`
+	Msg        string   `json:"msg,omitempty"`
+}
+
+// c14rampRow: what a ramp between two rate spellings turns into (distribution none, jitter 0, a 2 h ramp)
+func c14rampRow(start, end string) (row c14ramp) {
+	row = c14ramp{Kind: "ramp", StartChars: c14chars(start), EndChars: c14chars(end), Str: start + " -> " + end, Fits: c14fits(start) && c14fits(end)}
+	defer func() {
+		if r := recover(); r != nil {
+			row.Panicked = true
+			row.Msg = fmt.Sprint(r)
+		}
+	}()
+	dur := 2 * time.Hour
+	rates, err := ramp.CalculateRampRate(start, end, "none", dur, 0)
+	if err != nil {
+		row.Msg = err.Error()
+		return row
+	}
+	row.Accepted = true
+	row.Ms = int64(rates.IterationDuration / time.Millisecond)
+	row.Ns = int64(rates.IterationDuration % time.Millisecond)
+	t0 := time.Unix(1_700_000_000, 0)
+	row.First = rates.Rate(t0)
+	row.Last = rates.Rate(t0.Add(dur))
+	return row
+}
+
 // tryRates exercises an accepted rate function / trigger for a few ticks on a real pool.
 func c14runTrigger(front, input string, trig *api.Trigger, conc int) (row c14trig) {
 	row = c14trig{Kind: "trigger", Front: front, Input: input, Accepted: true, Workers: conc, IntervalOK: true, RateOK: true}
@@ -290,6 +329,13 @@ func init() {
 		for _, s := range []string{"", "10/250us", "2/1.5ms", "7/1.5m", "100/2h", "3/.5s", "12/0.25s", "5/", "/s", "1/0s", "1/0", "9/us", "4/ns", "8/100ms",
 			"1/-1s", "+5/s", "5/+1s", "1/1s1ms", "3/1m30s", "07/s", "5/µs", "1/1e3s", "999999/s", "1/.s", "1/.", "1//s", "1/s/s", " 5/s", "5/s ", "5 /s"} {
 			w.write(c14rateRow(s))
+		}
+		// (a2) every pair of a few rate spellings as the start and end rate of a ramp
+		rampRates := []string{"0", "0/s", "5", "5/s", "10/100ms", "600/m", "3/2s", "1/500ms", "0/100ms", "7/1s", "5/"}
+		for _, a := range rampRates {
+			for _, b := range rampRates {
+				w.write(c14rampRow(a, b))
+			}
 		}
 		// (b) constructors with accepted/near-miss parameters
 		dists := []string{"none", "regular", "random", "bogus", ""}
